@@ -1,4 +1,5 @@
 """C11: concurrent requests never lose or tear updates (forced schedules at store-action granularity)."""
+import hashlib
 import json
 import os
 import re
@@ -15,7 +16,7 @@ _tag = re.sub(r"[^A-Za-z0-9]", "_", core.REPO)
 def sched_overlay():
     """the scheduler hook as <REPO>/verif_sched.go, and the sync.Mutex fields of package olareg rewritten to VerifMutex
     (same lines, so positions in messages stay those of the tree under test); nothing is written to the tree"""
-    d = os.path.join(W, "overlay_%s" % _tag)
+    d = os.path.join(W, "overlay_%s_%d" % (_tag, os.getpid()))
     shutil.rmtree(d, ignore_errors=True)
     os.makedirs(d)
     repl = {os.path.join(core.REPO, "verif_sched.go"): T("overlay", "sched", "verif_sched.go")}
@@ -38,7 +39,10 @@ def sched_overlay():
 def sched_binary(o, race=False):
     key = ("b", "reg_sched", race)
     if key not in Built.cache:
-        Built.cache[key] = core.go_build("reg", tags="verif,sched", race=race, overlay=sched_overlay(), out_name="reg_sched")
+        # the tree under test and the process are part of the name: go_build removes and rewrites its output, so runs at the same
+        # time (other trees via VERIF_REPO, or the same tree) must not share a binary; check_C11 removes it at the end
+        Built.cache[key] = core.go_build("reg", tags="verif,sched", race=race, overlay=sched_overlay(),
+                                         out_name="reg_sched_%s_%d" % (hashlib.sha256(core.REPO.encode()).hexdigest()[:8], os.getpid()))
     b, out = Built.cache[key]
     if b is None and o is not None:
         o.violation("harness reg (sched) does not build against the tree under test: %s" % out[-1500:],
@@ -194,7 +198,50 @@ def stress(o, race, store, rounds, label, profile=""):
                      "note": "not deterministic: re-run the harness with this environment; the forced-schedule part gives the deterministic replay"})
 
 
+def first_touch(o, repos, label):
+    """free-running first-touch stress on the directory store (harness/cmd/reg/conc_first.go): below the granularity of the
+    model (a check-then-act inside one store action, dir.RepoGet); judged at quiescence only: every tag acknowledged with
+    201 is listed and resolves, now and after a restart"""
+    b = sched_binary(o, False)
+    if b is None:
+        return
+    d = os.path.join(W, "first_%s_%d" % (label, os.getpid()))
+    os.makedirs(d, exist_ok=True)
+    env = {"VERIF_MODE": "conc", "VERIF_CONC": "firsttouch", "VERIF_SEED": o.seed, "VERIF_N": repos,
+           "VERIF_OPS": os.path.join(d, "ops"), "VERIF_IMPL": os.path.join(d, "impl"), "VERIF_MON": os.path.join(d, "mon")}
+    ok, out = _run_bin(b, env)
+    st = _stats(out)
+    mon = mon_parse(core.read_lines(os.path.join(d, "mon"))) if os.path.exists(os.path.join(d, "mon")) else []
+    shutil.rmtree(d, ignore_errors=True)
+    o.notes.setdefault("stress", {})[label] = st
+    o.cov["evaluations"] += st.get("tags_acknowledged", 0)
+    if not ok or not st:
+        o.violation("first-touch stress (%s) failed: %s" % (label, out[-1500:]), {"kind": "stress", "label": label, "output": out[-6000:]}, no_input=True)
+        return
+    hits = [m for m in mon if m[1].startswith("C11.")]
+    if hits:
+        o.violation("first-touch stress (%s; %d repositories, %d clients each, directory store): %s in %d repositories; first: %s"
+                    % (label, st.get("repositories", 0), st.get("clients_per_repository", 0), ", ".join(sorted(set(m[1] for m in hits))),
+                       st.get("repositories_with_lost_tags", 0), hits[0][2][:500]),
+                    {"kind": "stress", "label": label, "monitors": ["MON %d %s %s" % m for m in hits[:10]], "stats": st,
+                     "env": {k: str(v) for k, v in env.items()},
+                     "note": "a free-running workload (real goroutines released together, no forced schedule): not deterministic in which "
+                             "repositories lose tags; what is judged is deterministic (acknowledged tags at quiescence). Re-run: "
+                             "VERIF_MODE=conc VERIF_CONC=firsttouch VERIF_N=%d <.work/bin/reg_sched> with VERIF_OPS/IMPL/MON set, or bin/check C11 quick" % repos})
+
+
 def check_C11(o, tier):
+    try:
+        _check_C11(o, tier)
+    finally:
+        for key, val in list(Built.cache.items()):
+            if key[:2] == ("b", "reg_sched") and val[0] and os.path.exists(val[0]):
+                os.remove(val[0])
+                del Built.cache[key]
+        shutil.rmtree(os.path.join(W, "overlay_%s_%d" % (_tag, os.getpid())), ignore_errors=True)
+
+
+def _check_C11(o, tier):
     o.add_audit(core.audit("C11", tier == "thorough"))
     o.cov["rule"] = RULE
     prof = conc_profile(o)
@@ -231,6 +278,8 @@ def check_C11(o, tier):
     # free running
     stress(o, False, "mem", 3000 if thorough else 150, "stress-mem")
     stress(o, False, "dir", 300 if thorough else 25, "stress-dir")
+    # first touch of a repository by several clients at once, fresh and after a restart (directory store)
+    first_touch(o, 400 if thorough else 150, "stress-first-touch-dir")
     # under the race detector: tag moves on one digest against reads of the tag and the listing (what a handler does with
     # the index between two store actions is below the granularity of the model; C13 owns it, this is a cheap tripwire)
     stress(o, True, "mem", 1500 if thorough else 250, "stress-tagmoves-race", profile="tagrace")
